@@ -822,10 +822,14 @@ func init() {
 		"else":  {},
 
 		// unsupported
-		"chan": {},
-		"go":   {},
-		"<-":   {},
-		"->":   {},
+		"chan":        {},
+		"go":          {},
+		"defer":       {},
+		"fallthrough": {},
+		"goto":        {},
+		"select":      {},
+		"<-":          {},
+		"->":          {},
 	}
 	for _, s := range symbols {
 		if s.Nud == nil {
